@@ -13,10 +13,10 @@ I = lambda n: ("int", n)
 V = lambda x: ("var", x)
 B = lambda op, l, r: ("bin", op, l, r)
 
-INT_NODES = ["add", "sub", "mul", "call1", "call2", "call3", "call4", "orx", "pick", "fact", "neg"]
+INT_NODES = ["add", "sub", "mul", "call1", "call2", "call3", "call4", "orx", "pick", "fact", "neg", "mlit"]
 BOOL_NODES = ["lt", "eq", "and", "or", "not"]
 ARITY = {"add": ("ii"), "sub": ("ii"), "mul": ("ii"), "call1": ("i"), "call2": ("ii"), "call3": ("iii"), "call4": ("iiii"), "orx": ("oi"),
-         "pick": ("iii"), "fact": ("i"), "neg": ("i"), "lt": ("ii"), "eq": ("ii"), "and": ("bb"), "or": ("bb"), "not": ("b")}
+         "pick": ("iii"), "mlit": ("iii"), "fact": ("i"), "neg": ("i"), "lt": ("ii"), "eq": ("ii"), "and": ("bb"), "or": ("bb"), "not": ("b")}
 
 PRELUDE = [
     ("assign", "in0", ("in", 0)), ("assign", "in1", ("in", 1)), ("assign", "in2", ("in", 2)),
@@ -36,6 +36,7 @@ PRELUDE = [
     ("def", "f4", [("a", "int"), ("b", "int"), ("c", "int"), ("d", "int")], "int",
      [("print", I(1004)), ("return", B("-", B("-", V("a"), V("b")), B("-", V("c"), V("d"))))]),
     ("def", "pick", [("xs", "[int...]"), ("v", "int")], "int", [("print", I(1005)), ("return", B("+", ("index", V("xs"), 1), V("v")))]),
+    ("def", "pm", [("m", "map[str, int]"), ("v", "int")], "int", [("print", I(1006)), ("return", B("+", ("or", ("mindex", V("m"), ("str", "b")), I(0)), V("v")))]),
     ("def", "fact", [("n", "int"), ("v", "int")], "int", [
         ("print", B("+", I(2000), ("var", "n"))),
         ("if", [(B("<=", V("n"), I(0)), [("return", V("v"))])], None),
@@ -92,6 +93,9 @@ class Builder:
             return ("or", kids[0], kids[1])
         if k == "pick":
             return ("call", "pick", [("list", [kids[0], kids[1]]), kids[2]])
+        if k == "mlit":
+            # a map literal built in place: pairs left to right, the key before its value
+            return ("call", "pm", [("map", "str", "int", [(("str", "a"), kids[0]), (("str", "b"), kids[1])]), kids[2]])
         if k == "fact":
             return ("call", "fact", [I(2), kids[0]])
         raise ValueError(k)
